@@ -367,14 +367,33 @@ static int hrun(int idx)
   const TNode& nd = g_tree->nodes[idx];
   return g_hsb[nd.s]->invoke_sandbox_function(call_cb_n, (*g_hcbs[nd.s])[nd.k], idx * 4, nd.n).UNSAFE_unverified();
 }
+// fault mode: the callback run with code g_throw_code aborts (throws, as a failed RLBox check inside a callback body does under
+// RLBOX_USE_EXCEPTIONS); the callback body that performed the nested invocation catches it and goes on
+static int g_throw_code = -1;
+struct InjectedAbort : std::runtime_error
+{
+  InjectedAbort()
+    : std::runtime_error("injected callback-body abort")
+  {}
+};
 template<int K>
 static tn<int> hcb(sbx_t& sb, tn<int> code)
 {
   int c = code.UNSAFE_unverified();
   g_hlog.push_back({ K % 100, &sb, c });
   if (g_tree && K < 100) {
+    if (c == g_throw_code) throw InjectedAbort();
     int idx = c / 4, j = c % 4;
-    if (idx >= 0 && idx < (int)g_tree->nodes.size() && j < 2 && g_tree->nodes[idx].child[j] >= 0) hrun(g_tree->nodes[idx].child[j]);
+    if (idx >= 0 && idx < (int)g_tree->nodes.size() && j < 2 && g_tree->nodes[idx].child[j] >= 0) {
+      if (g_throw_code >= 0) {
+        try {
+          hrun(g_tree->nodes[idx].child[j]);
+        } catch (const InjectedAbort&) {
+          // swallowed by the application: the enclosing invocation continues
+        }
+      } else
+        hrun(g_tree->nodes[idx].child[j]);
+    }
   }
   return tn<int>(c + 1);
 }
@@ -383,12 +402,21 @@ static void seed_fill(sbx_t& sb, std::vector<HCB>& keep, std::index_sequence<Is.
 {
   (keep.push_back(sb.register_callback(hcb<100 + (int)Is>)), ...);
 }
-static void hwalk(const Tree& t, int idx, std::vector<HRec>& out, void* sbp[2])
+struct ModelAbort
+{};
+static void hwalk(const Tree& t, int idx, std::vector<HRec>& out, void* sbp[2], int throw_code = -1)
 {
   const TNode& nd = t.nodes[idx];
   for (int j = 0; j < nd.n; j++) {
     out.push_back({ nd.k, sbp[nd.s], idx * 4 + j });
-    if (nd.child[j] >= 0) hwalk(t, nd.child[j], out, sbp);
+    if (idx * 4 + j == throw_code) throw ModelAbort(); // ends the invocation of this node
+    if (nd.child[j] >= 0) {
+      try {
+        hwalk(t, nd.child[j], out, sbp, throw_code);
+      } catch (const ModelAbort&) {
+        // caught by this callback body; its invocation goes on with the next run
+      }
+    }
   }
 }
 static void trees()
@@ -448,6 +476,49 @@ static void trees()
       viol(sgn("tree", kind), kase, "callback runs: " + got + "| expected: " + w2);
     } else if (res != wres) viol(sgn("tree", "result-value"), kase, "guest summed " + std::to_string(res) + " expected " + std::to_string(wres));
   }
+#ifdef BK_NOOP
+  // the same trees with one callback run aborting and the enclosing callback body catching the abort (guest code is part of
+  // this translation unit under the noop backend, so the exception can cross it): everything that runs afterwards inside the
+  // enclosing invocations must still be dispatched to the right function and sandbox
+  for (size_t ti = 0; ti < ts.size(); ti++) {
+    if (!mine(ti)) continue;
+    auto& t = ts[ti];
+    if (t.nodes.size() < 2) continue;
+    for (size_t idx = 1; idx < t.nodes.size(); idx++)
+      for (int j = 0; j < t.nodes[idx].n; j++) {
+        g_tree = &t;
+        g_hlog.clear();
+        g_throw_code = (int)idx * 4 + j;
+        auto o = attempt([&] { hrun(0); });
+        g_throw_code = -1;
+        n_eval++;
+        n_nontriv++;
+        std::vector<HRec> want;
+        try {
+          hwalk(t, 0, want, sbp, (int)idx * 4 + j);
+        } catch (const ModelAbort&) {
+        }
+        std::string kase = "tree|" + t.str() + "|caught-abort@" + std::to_string(idx) + "." + std::to_string(j);
+        if (o != RET) {
+          viol(sgn("tree-caught-abort", "abort"), kase, "the abort was caught inside the enclosing callback body, yet the outer invocation aborted");
+          continue;
+        }
+        bool ok = want.size() == g_hlog.size();
+        const char* kind = "call-count";
+        for (size_t i = 0; ok && i < want.size(); i++) {
+          if (g_hlog[i].k != want[i].k) { ok = false; kind = "wrong-function"; }
+          else if (g_hlog[i].sb != want[i].sb) { ok = false; kind = "wrong-sandbox-reference"; }
+          else if (g_hlog[i].code != want[i].code) { ok = false; kind = "argument-value"; }
+        }
+        if (!ok) {
+          std::string got, w2;
+          for (auto& g : g_hlog) got += "f" + std::to_string(g.k) + (g.sb == &A ? "A" : g.sb == &B ? "B" : "?") + ":" + std::to_string(g.code) + " ";
+          for (auto& g : want) w2 += "f" + std::to_string(g.k) + (g.sb == &A ? "A" : "B") + ":" + std::to_string(g.code) + " ";
+          viol(sgn("tree-caught-abort", kind), kase, "after a callback-body abort caught by the enclosing callback: callback runs " + got + "| expected: " + w2);
+        }
+      }
+  }
+#endif
   // register/unregister churn at high occupancy: every live entry point still runs its own function
   g_tree = nullptr;
   for (int round = 0; round < 4; round++) {
